@@ -286,6 +286,10 @@ func genMDNS(cl *caseList, rng *lib.Rand, scale int) {
 	for k := 0; k < 40*scale; k++ {
 		addMDNS(cl, "random", rng.Bytes(rng.Intn(60)), true)
 	}
+	for _, m := range dnsNameStress(rng) { // pointer cycles / chains / label runs at the bounds
+		addMDNS(cl, "namestress", m, true)
+		addNBNS(cl, "namestress", m, true)
+	}
 }
 
 // ---------------------------------------------------------------- NBNS
